@@ -1,5 +1,5 @@
 # What each claimed check asserts about itself (copied into MANIFEST.json by gen_manifest.py).
-HOOK_COMMITS = []
+HOOK_COMMITS = ["60bdaa0"]
 NOT_APPLICABLE = {}
 CLAIMS = {
     "C20": {
